@@ -1,0 +1,211 @@
+//go:build verif
+
+// Contracts for package discovery, checked by /verif/govc (comment-only; not part of any normal build).
+
+package discovery
+
+// ---- assumed summaries of collaborators (trusted, listed in the evidence) ----
+
+//@ func (vcr.VCR).Verifier
+//@   trusted
+//@   benign
+//@ func (verifier.Verifier).VerifyVP
+//@   trusted
+//@   benign
+//@ func (*sqlStore).exists
+//@   trusted
+//@   benign
+//@ func (*sqlStore).updateValidated
+//@   trusted
+//@   benign
+//@ func (pe.PresentationDefinition).Match
+//@   trusted
+//@   benign
+//@ func time.Until
+//@   trusted
+//@   benign
+
+// ---- C16: what a discovery server accepts ----
+
+//@ func validateAudience
+//@   prop C16
+//@   safety
+//@   modifies nothing
+//@   loop 1 invariant forall k int :: 0 <= k && k < $i ==> audience[k] != service.ID
+//@   ensures [addressed-to-this-service] isNilIface(result) <==> exists k int :: 0 <= k && k < len(audience) && audience[k] == service.ID
+
+//@ func (*Module).validateRegistration
+//@   prop C16
+//@   safety
+//@   modifies nothing
+//@   requires presentation.Format() == vc.JWTPresentationProofFormat
+//@   loop 1 invariant forall k int :: 0 <= k && k < $i ==> presentation.VerifiableCredential[k].ExpirationDate == nil || !expiration.After(*presentation.VerifiableCredential[k].ExpirationDate)
+//@   ensures [not-outliving-its-credentials] isNilIface(result) ==> forall k int :: 0 <= k && k < len(presentation.VerifiableCredential) ==>
+//@        presentation.VerifiableCredential[k].ExpirationDate == nil || !presentation.JWT().Expiration().After(*presentation.VerifiableCredential[k].ExpirationDate)
+//@   ensures [credentials-all-and-only-fulfil-the-definition] isNilIface(result) ==> isNilIface(ret(call (pe.PresentationDefinition).Match #1).2)
+//@        && len(ret(call (pe.PresentationDefinition).Match #1).0) == len(presentation.VerifiableCredential)
+//@        && arg(call (pe.PresentationDefinition).Match #1, 1) == presentation.VerifiableCredential
+//@        && same(arg(call (pe.PresentationDefinition).Match #1, 0), definition.PresentationDefinition)
+
+//@ func (*Module).validateRetraction
+//@   prop C16
+//@   safety
+//@   requires presentation.Format() == vc.JWTPresentationProofFormat
+//@   ensures [carries-no-credentials] isNilIface(result) ==> len(presentation.VerifiableCredential) == 0
+//@   ensures [retracts-an-existing-entry-of-its-own-signer] isNilIface(result) ==>
+//@        ret(call (*sqlStore).exists #1).0 == true && isNilIface(ret(call (*sqlStore).exists #1).1)
+//@        && arg(call (*sqlStore).exists #1, 1) == serviceID
+//@        && arg(call (*sqlStore).exists #1, 2) == ret(call credential.PresentationSigner #1).0.String()
+//@        && arg(call (*sqlStore).exists #1, 3) != "" && any(arg(call (*sqlStore).exists #1, 3)) == ret(call (jwt.Token).Get #1).0
+
+//@ func (*Module).verifyRegistration
+//@   prop C16
+//@   safety
+//@   ensures [jwt-presentation-with-id] isNilIface(result) ==> presentation.Format() == vc.JWTPresentationProofFormat && presentation.ID != nil
+//@   ensures [addressed-to-this-service] isNilIface(result) ==> isNilIface(ret(call validateAudience #1))
+//@        && same(arg(call validateAudience #1, 0), definition) && arg(call validateAudience #1, 1) == presentation.JWT().Audience()
+//@   ensures [expires-within-max-validity] isNilIface(result) ==> !presentation.JWT().Expiration().IsZero()
+//@        && same(arg(call time.Until #1, 0), presentation.JWT().Expiration())
+//@        && int64(ret(call time.Until #1)) <= int64(definition.PresentationMaxValidity) * 1000000000
+//@   call slices.Contains #1 requires [method-of-the-signer] isNilIface(ret(call credential.PresentationSigner #1).1)
+//@        && same(arg(call credential.PresentationSigner #1, 0), presentation) && arg(1) == ret(call credential.PresentationSigner #1).0.Method
+//@   ensures [signer-did-method-allowed] isNilIface(result) && len(definition.DIDMethods) > 0 ==>
+//@        ret(call slices.Contains #1) == true && arg(call slices.Contains #1, 0) == definition.DIDMethods
+//@   ensures [validated-as-retraction-or-registration] isNilIface(result) ==>
+//@        (presentation.IsType(retractionPresentationType)
+//@          ? (isNilIface(ret(call (*Module).validateRetraction #1)) && arg(call (*Module).validateRetraction #1, 1) == definition.ID && same(arg(call (*Module).validateRetraction #1, 2), presentation))
+//@          : (isNilIface(ret(call (*Module).validateRegistration #1)) && same(arg(call (*Module).validateRegistration #1, 1), definition) && same(arg(call (*Module).validateRegistration #1, 2), presentation)))
+//@   ensures [signatures-verified-with-trust-and-revocation] isNilIface(result) ==> isNilIface(ret(call (verifier.Verifier).VerifyVP #1).1)
+//@        && same(arg(call (verifier.Verifier).VerifyVP #1, 1), presentation) && arg(call (verifier.Verifier).VerifyVP #1, 2) == true
+//@        && arg(call (verifier.Verifier).VerifyVP #1, 3) == true && arg(call (verifier.Verifier).VerifyVP #1, 4) == nil
+
+// ---- C16: the server-side list: increasing timestamps, one live entry per subject ----
+
+//@ func (*sqlStore).findAndLockService
+//@   trusted
+//@   benign
+//@ func (*sqlStore).prune
+//@   trusted
+//@   benign
+//@ func uuid.NewString
+//@   trusted
+//@   benign
+
+// The row saved is the row that was locked in this transaction, with its timestamp raised by one;
+// the value handed out is that new timestamp.
+//@ func (*sqlStore).incrementTimestamp
+//@   prop C16
+//@   safety
+//@   modifies nothing
+//@   call (*gorm.DB).Save #1 requires [locked-row-plus-one] isNilIface(ret(call (*sqlStore).findAndLockService #1).1)
+//@        && arg(call (*sqlStore).findAndLockService #1, 1) == tx && arg(call (*sqlStore).findAndLockService #1, 2) == serviceID
+//@        && arg(0) == tx && typeOf(arg(1)) == serviceRecord && arg(1).(serviceRecord).ID == serviceID
+//@        && arg(1).(serviceRecord).LastLamportTimestamp == ret(call (*sqlStore).findAndLockService #1).0.LastLamportTimestamp + 1
+//@   ensures [timestamp-iff-ok] isNilIface(result.1) ==> result.0 != nil
+//@   ensures [hands-out-the-successor] isNilIface(result.1) ==> *result.0 == ret(call (*sqlStore).findAndLockService #1).0.LastLamportTimestamp + 1
+//@        && isNilIface(ret(call (*gorm.DB).Save #1).Error)
+
+//@ func (*sqlStore).setTimestamp
+//@   prop C16
+//@   safety
+//@   modifies nothing
+//@   call (*gorm.DB).Save #1 requires [locked-row-set-to-the-servers-timestamp] isNilIface(ret(call (*sqlStore).findAndLockService #1).1)
+//@        && arg(0) == tx && typeOf(arg(1)) == serviceRecord && arg(1).(serviceRecord).ID == serviceID
+//@        && arg(1).(serviceRecord).LastLamportTimestamp == timestamp && arg(1).(serviceRecord).Seed == seed
+
+// Inside one SQL transaction: take the timestamp, delete the subject's previous entries, then store.
+//@ func (*sqlStore).add$1
+//@   prop C16
+//@   safety
+//@   requires credentialSubjectID != nil
+//@   call storePresentation #1 requires [timestamp-taken-and-previous-entries-of-the-subject-deleted-in-this-tx]
+//@        arg(0) == tx && arg(1) == serviceID && same(arg(3), presentation)
+//@        && did(call (*gorm.DB).Delete #1) && arg(call (*gorm.DB).Delete #1, 0) == tx && isNilIface(ret(call (*gorm.DB).Delete #1).Error)
+//@        && ((did(call (*sqlStore).incrementTimestamp #1) && isNilIface(ret(call (*sqlStore).incrementTimestamp #1).1) && arg(call (*sqlStore).incrementTimestamp #1, 1) == tx
+//@              && arg(call (*sqlStore).incrementTimestamp #1, 2) == serviceID && arg(2) == *ret(call (*sqlStore).incrementTimestamp #1).0)
+//@          || (did(call (*sqlStore).setTimestamp #1) && isNilIface(ret(call (*sqlStore).setTimestamp #1)) && arg(call (*sqlStore).setTimestamp #1, 1) == tx
+//@              && arg(call (*sqlStore).setTimestamp #1, 2) == serviceID && arg(2) == arg(call (*sqlStore).setTimestamp #1, 4)))
+//@   ensures [errors-propagate] (did(call (*sqlStore).incrementTimestamp #1) && !isNilIface(ret(call (*sqlStore).incrementTimestamp #1).1)) ==> !isNilIface(result)
+
+//@ func (*sqlStore).add
+//@   prop C16
+//@   safety
+//@   assume-benign
+// NOT provable here: "a record is returned whenever the error is nil". `return newPresentation, s.db.Transaction(..)`
+// reads a variable the closure assigns; the Go spec leaves the order of that read relative to the call
+// unspecified, go/ssa (and therefore govc) reads it first, the gc compiler reads it afterwards. Register's
+// dereference of the record is therefore left unclaimed (baseline/C16.unclaimed), see DESIGN.md.
+//@   ensures [signer-resolved-first] isNilIface(result.1) ==> isNilIface(ret(call credential.PresentationSigner #1).1) && same(arg(call credential.PresentationSigner #1, 0), presentation)
+
+//@ func cycleDetected
+//@   prop C16
+//@   assume-benign
+//@ func (client.HTTPClient).*
+//@   trusted
+//@   benign
+
+// A presentation is listed only by a server of that service, only after verifyRegistration accepted
+// exactly this presentation under that service's definition, and only if it is not listed already.
+//@ func (*Module).Register
+//@   prop C16
+//@   safety
+//@   call (*sqlStore).add #1 requires [only-verified-new-presentations-are-listed]
+//@        old(serviceID in m.serverDefinitions)
+//@        && isNilIface(ret(call (*Module).verifyRegistration #1)) && same(arg(call (*Module).verifyRegistration #1, 2), presentation)
+//@        && same(arg(call (*Module).verifyRegistration #1, 1), old(m.allDefinitions[serviceID]))
+//@        && isNilIface(ret(call (*sqlStore).exists #1).1) && ret(call (*sqlStore).exists #1).0 == false
+//@        && arg(1) == serviceID && same(arg(2), presentation) && arg(3) == "" && arg(4) == 0
+//@   call (client.HTTPClient).Register #1 requires [forwarded-only-for-known-foreign-services-without-cycle]
+//@        !old(serviceID in m.serverDefinitions) && old(serviceID in m.allDefinitions) && ret(call cycleDetected #1) == false
+//@        && same(arg(3), presentation)
+//@   ensures [rejected-presentations-are-reported] did(call (*Module).verifyRegistration #1) && !isNilIface(ret(call (*Module).verifyRegistration #1)) ==> !isNilIface(result)
+//@   ensures [duplicates-are-reported] did(call (*sqlStore).exists #1) && ret(call (*sqlStore).exists #1).0 == true ==> !isNilIface(result)
+
+//@ func (*sqlStore).getTimestamp
+//@   trusted
+//@   benign
+//@ func (*sqlStore).wipeOnSeedChange
+//@   trusted
+//@   benign
+//@ func vc.ParseVerifiablePresentation
+//@   trusted
+//@   benign
+//@ func time.Now
+//@   trusted
+//@   benign
+
+// ---- C16: the client replica ----
+
+// The client asks for everything after its own last timestamp, starts over when the seed changed
+// (wipeOnSeedChange, before anything is stored), stores new entries under the server's seed and
+// timestamp, and marks an entry validated only after its own verifier accepted exactly that entry.
+//@ func (*clientUpdater).updateService
+//@   prop C16
+//@   safety
+//@   call (client.HTTPClient).Get #1 requires [asks-after-own-timestamp] isNilIface(ret(call (*sqlStore).getTimestamp #1).1)
+//@        && arg(call (*sqlStore).getTimestamp #1, 1) == service.ID && arg(3) == ret(call (*sqlStore).getTimestamp #1).0 && arg(2) == service.Endpoint
+//@   call (*sqlStore).add #1 requires [stored-after-seed-check-under-the-servers-seed-and-timestamp]
+//@        isNilIface(ret(call (*sqlStore).wipeOnSeedChange #1)) && arg(call (*sqlStore).wipeOnSeedChange #1, 1) == service.ID
+//@        && arg(call (*sqlStore).wipeOnSeedChange #1, 2) == ret(call (client.HTTPClient).Get #1).1
+//@        && arg(1) == service.ID && arg(3) == ret(call (client.HTTPClient).Get #1).1 && arg(4) == ret(call (client.HTTPClient).Get #1).2
+//@        && isNilIface(ret(call (*sqlStore).exists #1).1) && ret(call (*sqlStore).exists #1).0 == false
+//@   call (*sqlStore).updateValidated #1 requires [validated-only-after-own-verification-of-this-entry]
+//@        isNilIface(ret(call .verifier #1)) && same(arg(call .verifier #1, 0), service) && same(arg(call .verifier #1, 1), arg(call (*sqlStore).add #1, 2))
+//@        && isNilIface(ret(call (*sqlStore).add #1).1) && len(arg(1)) == 1 && same(arg(1)[0], *ret(call (*sqlStore).add #1).0)
+//@   loop 1 invariant true
+
+// ---- C16: what the server hands out and what a search returns ----
+
+// The service row (seed, last timestamp) is read before the rows: an entry registered in between is
+// then handed out with a timestamp above the one reported, so the client asks for it again.
+//@ func (*sqlStore).get
+//@   prop C16
+//@   call (*gorm.DB).Order #1 requires [service-timestamp-read-before-the-rows] did(call (*gorm.DB).Find #1) && isNilIface(ret(call (*gorm.DB).Find #1).Error)
+//@   loop 1 invariant true
+//@   ensures [reports-the-timestamp-read-first] isNilIface(result.3) ==> result.2 == service.LastLamportTimestamp && result.1 == service.Seed
+
+//@ func (*sqlStore).search
+//@   prop C16
+//@   call (*gorm.DB).Group #1 requires [only-validated-entries-unless-asked-otherwise] allowUnvalidated || didCallWith("(*gorm.DB).Where", 1, any("validated != 0"))
+//@   call vc.ParseVerifiablePresentation #1 requires [only-unexpired-entries] arg(0) == match.PresentationRaw && match.PresentationExpiration > ret(call (time.Time).Unix #1)
+//@   loop 1 invariant true
